@@ -70,7 +70,10 @@ RULE = ("random valid map requests (DAGs of 1..4 structural functions, generator
         "re-opened after every run; runs on an existing store: complete folder / resume after fixed_indices parts / "
         "fixed_indices on an empty folder or after another part, under the controlled executor (incl. eager starts), "
         "thread pools and (chains, thorough) process pools; structural functions that raise for some calls (error "
-        "class compared) } x { dict, file_array, shared_memory_dict, "
+        "class compared); fixed families on every seed: 'race' (thread pools with >= 3 workers and a slow disk over "
+        "file_array intermediates that are read repeatedly: outer product, broadcast, two consumers) and 'stale folder' "
+        "(partial folder left by fixed_indices runs or by a sequential run in which functions raised, then "
+        "shared_memory_dict x real process pools, folder re-opened) } x { dict, file_array, shared_memory_dict, "
         "per-function mixes; executor single / per output / default+overrides }; non-trivial = a generation with >= 2 "
         "tasks executed in a non-submission order, or a real pool; distinct by (specs, shapes, storages, executor, "
         "entry, schedules)")
@@ -92,7 +95,10 @@ TRUSTED = ["Model/ParGen.v mirrors the generation loop of pipefunc/map/_run.py b
            "Model/ParResume.v the same loop on an existing store (on top of Model/MapResume.v)",
            "harness/props/c03.py: controlled concurrent.futures.Executor, dump recorder (wrapping DictArray.dump / "
            "FileArray.dump), canonical log order",
-           "harness/mapsym.py structural user functions and canonicalisation of arrays"]
+           "harness/mapsym.py structural user functions and canonicalisation of arrays",
+           "slow-disk injection: FileArray's `load` is delayed by 1-2 ms in the 'race' thread-pool runs (harness only)",
+           "Corr/Resume_C03.store_of_trace: the folder left by a FAILED sequential run with storages that dump inside "
+           "the task = the dumps of MapResume's trace up to the failure (compared with the real folder on every run)"]
 
 TIMEOUT = 60.0
 DIS = {"dict": False, "file_array": True, "shared_memory_dict": True}
@@ -221,7 +227,7 @@ def code_parity(x):
     return sum(map(ord, x)) % 2 == 0
 
 
-def make_callable(fd, log):
+def make_callable(fd, log, pre_state=None):
     """Variant of mapsym.make_callable: a function with fd["nullable"] returns a real None instead of a scalar value
     whose text has an even sum of character codes (None is a perfectly valid element value)."""
     import numpy as np
@@ -231,11 +237,13 @@ def make_callable(fd, log):
     aslist = fd.get("intlist", False)
     nullable = bool(fd.get("nullable"))
     raises = bool(fd.get("raises"))
+    state = pre_state          # {"on": bool, "names": [...]}: raise (same rule) only during the pre-filling run
 
     def body(**kw):
         app = name + "(" + ",".join(f"{p}={mapsym.canon(kw[p])}" for p in params) + ")"
         log.add(app)
-        if raises and sum(map(ord, app)) % 3 == 0:     # as Corr/Run_C03.code_mod3
+        pre = state is not None and state["on"] and name in state["names"]
+        if (raises or pre) and sum(map(ord, app)) % 3 == 0:     # as Corr/Run_C03.code_mod3
             msg = "structural failure"
             raise ZeroDivisionError(msg)
 
@@ -260,13 +268,13 @@ def make_callable(fd, log):
     return body
 
 
-def build_pipeline(req, log, delay_seed=None):
+def build_pipeline(req, log, delay_seed=None, pre_state=None):
     from pipefunc import PipeFunc, Pipeline
 
     funcs = []
     for fd in req["funcs"]:
         outs = fd["outs"]
-        body = make_callable(fd, log)
+        body = make_callable(fd, log, pre_state)
         if delay_seed is not None:
             body = _with_delays(body, fd["name"], delay_seed)
         funcs.append(PipeFunc(
@@ -430,6 +438,28 @@ def _values(req, r, folder):
 _LAST = {}
 
 
+@contextlib.contextmanager
+def _slow_disk(seconds):
+    """A slow disk: FileArray's element reads take `seconds` longer (widens the window in which several tasks of a
+    thread pool read the same storage object at the same time; results must not depend on it)."""
+    if not seconds:
+        yield
+        return
+    import pipefunc.map._storage_array._file as F
+
+    orig = F.load
+
+    def slow_load(*a, **k):
+        time.sleep(seconds)
+        return orig(*a, **k)
+
+    F.load = slow_load
+    try:
+        yield
+    finally:
+        F.load = orig
+
+
 def _gen_of(c):
     return {c["req"]["funcs"][pos]["name"]: k for k, g in enumerate(c["gens"]) for pos in g}
 
@@ -445,14 +475,30 @@ def _run(c, run, resume=None):
     lin = resume is not None
     with tempfile.TemporaryDirectory(prefix="verif_c03_", ignore_cleanup_errors=True) as tmp:
         log = mapsym.CallLog(os.path.join(tmp, "calls.log") if mode in ("process", "default") else None)
-        p = build_pipeline(req, log, delay_seed=None if mode == "ctl" else run.get("seed", 0))
+        pre_state = {"on": False, "names": list((resume or {}).get("prefail") or [])}
+        p = build_pipeline(req, log, delay_seed=None if mode == "ctl" else run.get("seed", 0),
+                           pre_state=pre_state if pre_state["names"] else None)
         if real_gens(p, req) != c["gens"]:
             return Err("GenerationMismatch")
         d = os.path.join(tmp, "run") if (run.get("folder", True) or lin) else None
         created = []
         mk = dict(cleanup=True, fixed=None)
         prelog = []
-        if lin:
+        if lin and pre_state["names"]:       # ONE full sequential run in which some calls raise
+            pre_state["on"] = True
+            try:
+                p.map(mapsym.map_inputs(req), run_folder=d, internal_shapes=mapsym.internal_arg(req),
+                      storage=storage_arg(req, run), parallel=False, cleanup=True)
+            except ZeroDivisionError:
+                pass
+            finally:
+                pre_state["on"] = False
+            # a new Pipeline object, as a later session would build it (the old one carries an ErrorSnapshot holding
+            # the raw function, which the standard pickler of a process pool cannot serialise for a closure)
+            p = build_pipeline(req, log, delay_seed=None if mode == "ctl" else run.get("seed", 0), pre_state=pre_state)
+            prelog = log.read()
+            mk = dict(cleanup=False, fixed=None if resume["fx"] is None else c06._fixed(resume["fx"]))
+        elif lin:
             for k, part in enumerate(resume["pre"]):
                 p.map(mapsym.map_inputs(req), run_folder=d, internal_shapes=mapsym.internal_arg(req),
                       storage=storage_arg(req, run), parallel=False, cleanup=(k == 0),
@@ -473,7 +519,7 @@ def _run(c, run, resume=None):
                 me = threading.get_ident()
                 ex, created = executor_arg(req, run,
                                            lambda: ThreadPoolExecutor(max_workers=1 + run.get("seed", 0) % 4))
-                with DumpRecorder(lambda: threading.get_ident() != me, lin) as rec:
+                with DumpRecorder(lambda: threading.get_ident() != me, lin) as rec, _slow_disk(run.get("slow_load")):
                     r = _call_map(p, req, run, d, ex, **mk)
                 return [_values(req, r, d), canon_log(c, log.read()[n0:]),
                         sorted(rec.obs(req, r)), prelog]
@@ -601,6 +647,99 @@ def _none_chain(rng, reduce_ok=True):
                                "as": "list" if rank == 1 and rng.random() < 0.5 else "nd"}]]}
 
 
+def _fd(name, outs, params, spec, **kw):
+    return dict({"name": name, "outs": outs, "params": params, "spec": spec, "int": [], "bound": [], "defaults": []}, **kw)
+
+
+def _arr(name, sh, as_="nd"):
+    n = 1
+    for d in sh:
+        n *= d
+    return [name, {"sh": sh, "d": [f"{name}_{k}" for k in range(n)], "as": as_}]
+
+
+def _outer_request(rng, small=False):
+    """Two stored intermediates consumed as an OUTER PRODUCT (every element is read several times), optionally a second
+    consumer of one of them in the same generation."""
+    ni, nj = (2, 2) if small else (rng.randint(2, 3), rng.randint(2, 4))
+    funcs = [_fd("f0", ["a"], ["x0"], {"i": [["x0", ["i"]]], "o": [["a", ["i"]]]}, nullable=rng.random() < 0.3),
+             _fd("f1", ["b"], ["x1"], {"i": [["x1", ["j"]]], "o": [["b", ["j"]]]}),
+             _fd("f2", ["z"], ["a", "b"], {"i": [["a", ["i"]], ["b", ["j"]]], "o": [["z", ["i", "j"]]]})]
+    if not small and rng.random() < 0.6:
+        funcs.append(_fd("f3", ["u"], ["a"], {"i": [["a", ["i"]]], "o": [["u", ["i"]]]}))
+    return {"funcs": funcs, "internal": [],
+            "inputs": [_arr("x0", [ni], rng.choice(["list", "nd"])), _arr("x1", [nj], rng.choice(["list", "nd"]))]}
+
+
+def _broadcast_request(rng):
+    """A stored intermediate a[i] broadcast along a second axis of a root input, plus a second consumer of a."""
+    ni, nk = rng.randint(2, 3), rng.randint(2, 4)
+    funcs = [_fd("f0", ["a"], ["x0"], {"i": [["x0", ["i"]]], "o": [["a", ["i"]]]}),
+             _fd("f1", ["w"], ["a", "x1"], {"i": [["a", ["i"]], ["x1", ["i", "k"]]], "o": [["w", ["i", "k"]]]}),
+             _fd("f2", ["u"], ["a"], {"i": [["a", ["i"]]], "o": [["u", ["i"]]]}, nullable=rng.random() < 0.3)]
+    return {"funcs": funcs, "internal": [], "inputs": [_arr("x0", [ni], "list"), _arr("x1", [ni, nk])]}
+
+
+def _plain_chain(rng):
+    n = rng.randint(3, 5)
+    funcs = [_fd("f0", ["y0"], ["x0"], {"i": [["x0", ["i"]]], "o": [["y0", ["i"]]]}),
+             _fd("f1", ["y1"], ["y0"], {"i": [["y0", ["i"]]], "o": [["y1", ["i"]]]}, nullable=rng.random() < 0.3)]
+    return {"funcs": funcs, "internal": [], "inputs": [_arr("x0", [n], rng.choice(["list", "nd"]))]}
+
+
+def _uniform_run(rng, req, pis, storage, exec_, entry, seed=0, exec_form="single", **kw):
+    return dict(pis=pis, stor={f["name"]: storage for f in req["funcs"]}, stor_form=rng.choice(["str", "each"]),
+                exec=exec_, entry=entry, seed=seed, folder=True, exec_form=exec_form, **kw)
+
+
+def _race_case(rng, req, reps):
+    """Thread pools with >= 3 workers over file_array intermediates that are read repeatedly, on a slow disk."""
+    gens, sizes = _probe(req)
+    runs = []
+    for k in range(reps):
+        seed = 4 * rng.randrange(10 ** 5) + rng.choice([2, 3])        # 1 + seed % 4 workers: 3 or 4
+        r_ = _uniform_run(rng, req, [], "file_array", "thread", rng.choice(["map", "map", "async"]), seed=seed,
+                          exec_form=rng.choice(["single", "single", "each"]), slow_load=rng.choice([0.001, 0.002]))
+        if k == reps - 1:      # the consumers on another backend, the intermediates stay file arrays
+            last = req["funcs"][-1]["name"]
+            r_["stor"] = dict(r_["stor"], **{last: rng.choice(["dict", "shared_memory_dict"])})
+            r_["stor_form"] = "each"
+        runs.append(r_)
+    return {"req": req, "gens": gens, "runs": runs}
+
+
+def _stale_folder_case(rng, req, thorough):
+    """Runs on a PARTIAL folder (left by fixed_indices runs / by a run in which a function raised) with
+    shared_memory_dict on a real process pool: what is in the folder afterwards is re-opened."""
+    from . import c06
+
+    gens, _ = _probe(req)
+    scen = []
+    good = sorted(set(c06.root_axes(req)) - c06.reduced_axes_py(req))
+    parts, _ = c06.gen_parts(rng, req, good) if good else (None, None)
+    if parts:
+        scen.append((parts[:rng.randint(1, max(1, len(parts) - 1))], None, None))
+    mapped = [f["name"] for f in req["funcs"] if f.get("spec") and f["spec"]["i"]]
+    scen.append(([None], None, mapped if rng.random() < 0.6 else [rng.choice(mapped)]))
+    resume = []
+    for pre, fx, prefail in scen:
+        try:
+            sizes = _probe_resume(req, gens, pre, fx, prefail)
+        except Exception:  # noqa: BLE001
+            continue
+        plan = [("process", "shared_memory_dict", "map"), ("process", "shared_memory_dict", "async"),
+                ("ctl", rng.choice(["shared_memory_dict", "file_array"]), rng.choice(["map", "async"]))]
+        if thorough:
+            plan.append(("thread", "shared_memory_dict", rng.choice(["map", "async"])))
+        if thorough:
+            plan += [("process", "file_array", "map"), ("default", "shared_memory_dict", "map")]
+        for exec_, storage, entry in plan:
+            r_ = _uniform_run(rng, req, _random_pis(rng, sizes) if exec_ == "ctl" else [], storage, exec_, entry,
+                              seed=rng.randrange(10 ** 6))
+            resume.append({"pre": pre, "fx": fx, "prefail": prefail or [], "run": r_})
+    return {"req": req, "gens": gens, "runs": [], "resume": resume}
+
+
 def _probe(req):
     """Generation structure of the real pipeline and the number of tasks submitted per generation."""
     log = mapsym.CallLog()
@@ -618,15 +757,16 @@ def _probe(req):
     return gens, sched.batches + [0] * (len(gens) - len(sched.batches))
 
 
-def _probe_resume(req, gens, pre, fx):
+def _probe_resume(req, gens, pre, fx, prefail=None):
     """Number of tasks each generation submits in the observed run of a scenario on a pre-filled folder."""
-    run = {"pis": [], "stor": {f["name"]: "dict" for f in req["funcs"]}, "stor_form": "str", "entry": "map",
+    st = "file_array" if prefail else "dict"     # what a failed run leaves depends on dump_in_subprocess
+    run = {"pis": [], "stor": {f["name"]: st for f in req["funcs"]}, "stor_form": "str", "entry": "map",
            "exec": "ctl", "exec_form": "single", "folder": True}
     import warnings
 
     with contextlib.redirect_stdout(io.StringIO()), warnings.catch_warnings():
         warnings.simplefilter("ignore")
-        o = _run({"req": req, "gens": gens}, run, {"pre": pre, "fx": fx})
+        o = _run({"req": req, "gens": gens}, run, {"pre": pre, "fx": fx, "prefail": prefail})
     if isinstance(o, Err):
         raise RuntimeError(o.detail)
     sched = _LAST["sched"]
@@ -689,7 +829,7 @@ SWEEP_KINDS = ["dict", "dict", "file_array", "file_array", "mix", "mix", "shared
 
 def generate(rng, tier, mult):
     thorough = tier != "quick"
-    n_req = (26 if not thorough else 160) * mult
+    n_req = (12 if not thorough else 120) * mult
     k_random = 4 if not thorough else 10
     cases = []
     n_chain = 2 if not thorough else 8
@@ -791,6 +931,13 @@ def generate(rng, tier, mult):
                     resume.append({"pre": pre, "fx": fx, "run": r_})
             if resume:
                 cases.append({"req": req, "gens": gens, "runs": [], "resume": resume})
+    # fixed families (every seed, both tiers)
+    for make in (_outer_request, _broadcast_request, _outer_request) * ((1 if not thorough else 2) * mult):
+        with contextlib.suppress(Exception):
+            cases.append(_race_case(rng, make(rng), 4 if not thorough else 8))
+    for make in (_plain_chain, lambda r: _outer_request(r, small=True), _plain_chain) * ((1 if not thorough else 2) * mult):
+        with contextlib.suppress(Exception):
+            cases.append(_stale_folder_case(rng, make(rng), thorough))
     return cases
 
 
@@ -817,8 +964,9 @@ def emit_case(c) -> str:
     def ofx(part):
         return "None" if part is None else "(Some %s)" % c06.fixed_lit(part)
 
-    resume = clist(["{| s_pre := %s; s_fx := %s; s_cfg := %s |}" % (clist([ofx(q) for q in s_["pre"]]), ofx(s_["fx"]),
-                                                                   cfg(s_["run"])) for s_ in c.get("resume") or []])
+    resume = clist(["{| s_pre := %s; s_fx := %s; s_cfg := %s; s_prefail := %s |}" % (
+        clist([ofx(q) for q in s_["pre"]]), ofx(s_["fx"]), cfg(s_["run"]),
+        clist([cstr(x) for x in s_.get("prefail") or []])) for s_ in c.get("resume") or []])
     fail = clist([cstr(f["name"]) for f in req["funcs"] if f.get("raises")])
     return ("{| q_funcs := %s; q_inputs := %s; q_internal := %s; q_gens := %s; q_runs := %s; q_none := %s; "
             "q_resume := %s; q_fail := %s |}") % (
@@ -838,7 +986,7 @@ def nontrivial_key(c):
             [v["sh"] if isinstance(v, dict) else 0 for _, v in c["req"]["inputs"]],
             [[sorted(r["stor"].items()), r["stor_form"], r["exec"], r["exec_form"], r["entry"], r["pis"],
               r.get("folder", True), r.get("eager")] for r in c["runs"]],
-            [[s_["pre"], s_["fx"], s_["run"]["exec"], s_["run"]["pis"], sorted(s_["run"]["stor"].items())]
+            [[s_["pre"], s_["fx"], s_.get("prefail"), s_["run"]["exec"], s_["run"]["pis"], sorted(s_["run"]["stor"].items())]
              for s_ in c.get("resume") or []])
 
 
@@ -874,8 +1022,10 @@ def distribution(c):
         d["has eager starts"] = "yes"
     if any(not r.get("folder", True) for r in runs):
         d["has run_folder=None"] = "yes"
+    if any(r.get("slow_load") for r in runs):
+        d["has slow-disk thread runs over file_array intermediates"] = _bucket(sum(1 for r in runs if r.get("slow_load")))
     for s_ in c.get("resume") or []:
-        kind = ("complete folder" if s_["pre"] == [None] else
+        kind = ("after a raising run" if s_.get("prefail") else "complete folder" if s_["pre"] == [None] else
                 ("resume after parts" if s_["fx"] is None else
                  ("fixed_indices on empty folder" if not s_["pre"] else "fixed_indices after a part")))
         d["existing store: " + kind + " / " + s_["run"]["exec"]] = "yes"
